@@ -152,7 +152,7 @@ fn push_segment(rng: &mut Rng, out: &mut Vec<u8>, kinds: &mut Vec<&'static str>)
         8 => {
             let n = rng.range_usize(1, 6);
             for _ in 0..n {
-                let c = *rng.pick(INTERESTING_CHARS);
+                let c = if rng.chance(1, 3) { *rng.pick(simcore::decl::case_expanding()) as u32 } else { *rng.pick(INTERESTING_CHARS) };
                 out.extend(c.to_le_bytes());
             }
             kinds.push("special_chars");
@@ -185,9 +185,10 @@ fn push_chars(rng: &mut Rng, out: &mut Vec<u8>, kinds: &mut Vec<&'static str>) {
     // A run of chars, mostly plain, with a few whitespace / case-expanding ones mixed in.
     let n = rng.range_usize(1, 24);
     for _ in 0..n {
-        let c: u32 = match rng.below(10) {
+        let c: u32 = match rng.below(11) {
             0 => INTERESTING_CHARS[rng.usize_below(25)],
             1 | 2 => *rng.pick(INTERESTING_CHARS),
+            10 => *rng.pick(simcore::decl::case_expanding()) as u32,
             3 => 0,
             4 => rng.next_u32(),
             _ => (rng.below(0x7F - 0x21) + 0x21) as u32,
